@@ -2,9 +2,14 @@
 //! through the `verif-hooks` feature.
 mod c01;
 mod c02;
+mod c03;
+mod c04;
+mod c07;
 mod c08;
 mod c10;
 mod driver_rig;
+mod evm_stub;
+mod node_rig;
 mod exec;
 mod srcmap;
 mod store_rig;
@@ -28,6 +33,9 @@ fn dispatch(id: &str, tier: Option<&str>) {
     match id {
         "C01" => c01::main(tier),
         "C02" => c02::main(tier),
+        "C03" => c03::main(tier),
+        "C04" => c04::main(tier),
+        "C07" => c07::main(tier),
         "C08" => c08::main(tier),
         "C10" => c10::main(tier),
         _ => {
